@@ -2,6 +2,7 @@ import Pyrtma.Proofs.Manager
 import Pyrtma.Proofs.ManagerOrder
 import Pyrtma.Spec.Manager
 import Pyrtma.Proofs.ManagerSimRun
+import Pyrtma.Proofs.ManagerSimOrigin
 /-!
 # C14 — undeliverable messages are reported, not silently lost
 
@@ -166,5 +167,37 @@ theorem logger_waited_clause_passes_partial (cfg : Cfg) (ok : CfgOK cfg) (hfuel 
     (s2 : State) (q : QuietTo cfg (readOne cfg s rd) s2) (evs : List Ev) (he : s2.out = s.out ++ Ev.rd rd.uid :: evs)
     (X : Spec.A) (hXm : X.mods = a.mods) (hXf : X.fail = a.fail) : Spec.checkLoggerWaited cfg X rd evs = X :=
   loggerWaited_ok ok hfuel hperm inv rd hu0 m hm s2 q evs he X hXm hXf
+
+/-! ### The Spec's "a notice is never invented" clause on the model -/
+
+/-- **`Spec.checkNoticeOrigin` never fires on the model's own run.**  In a state `s` of the model that the Spec's abstract
+state `a` simulates (`Inv`: after every history — `spec_invariant_after_any_history` — and at every frame inside a round —
+`Proofs/ManagerSimRun.lean: readAll_go`), at both places where `Spec.roundBody` evaluates the clause:
+
+* one frame: the model reads a frame from connection `rd.uid` and handles it, possibly followed by the periodic section
+  (`q = true`, the last frame of a round); `evs` are the events after the `rd` marker;
+* the stretch before the first read of a round: clock, failure environment, `accept` with its log line, the poll, and
+  the periodic section when no frame is read in the round (`q = true`); the clause is judged with the table after the
+  accept (`preAcc`);
+
+every FAILED_MESSAGE written names a module of the table (or a CONNECT is being handled) and carries the type, source
+and destination of the frame in flight or of a message the manager itself originates: the clause returns the state it
+was given (`X`: any state with that table), i.e. adds no entry.  The model builds `failed` frames only in `failedMsg`,
+from the frame it was delivering (`Proofs/ManagerSimOrigin.lean`). -/
+theorem spec_notice_origin_clause_passes_on_model (cfg : Cfg) (ok : CfgOK cfg) {a : Spec.A} {s : State} (inv : Inv cfg a s) :
+    (∀ (rd : Read) (q : Bool) (evs : List Ev) (X : Spec.A), rd.uid ≠ 0 → X.mods = a.mods →
+        (if q then ticks cfg (readOne cfg s rd) else readOne cfg s rd).out = s.out ++ Ev.rd rd.uid :: evs →
+        Spec.checkNoticeOrigin cfg X (some rd) evs = X) ∧
+    (∀ (r : Round) (q : Bool) (evs : List Ev) (X : Spec.A), X.mods = (preAcc a r).mods →
+        (if q then ticks cfg (preS cfg s r) else preS cfg s r).out = s.out ++ evs →
+        Spec.checkNoticeOrigin cfg X none evs = X) :=
+  ⟨fun rd q evs X hu hX he => noticeOrigin_frame ok inv.sim rd hu q evs he X hX,
+   fun r q evs X hX he => noticeOrigin_pre ok inv.sim r q evs he X hX⟩
+
+/-- non-vacuity: the clause is not trivially silent — a notice nobody justified is flagged (no frame in flight, no such
+    module in the table), a notice about a frame the manager originates to a module of the table is not -/
+example : ((Spec.checkNoticeOrigin {} {} none [.send 3 1 (failedFrame {} 11 exFrame)]).errs.map (·.1) = ["C14"]) ∧
+    Spec.noticeJustified {} { mods := [{ uid := 1, modId := 11 }] } none (failedFrame {} 11 { exFrame with mtype := 32, src := 0, dest := 0 }) = true := by
+  decide
 
 end Pyrtma.C14
